@@ -283,6 +283,34 @@ func (hy *history) feeds(run int, changed map[string]bool) {
 			hy.epoch[x.feed] = run
 		}
 	}
+	if changed["rpm"] {
+		for _, x := range hy.rels {
+			switch x.eco {
+			case "photon":
+				w.put(x.feed, 200, "application/xml", ovalDoc("rpm", "Photon", x.advs(run, false)), "etag", et)
+			case "suse":
+				files := map[string][]adv{x.name: x.advs(run, false)}
+				w.suseWorld(files)
+				// suseWorld serves the file without a validator; add one
+				w.mu.Lock()
+				rr := w.routes[x.feed]
+				rr.header["etag"] = et
+				w.routes[x.feed] = rr
+				w.mu.Unlock()
+			case "aws":
+				w.awsWorldTagged(map[string][]adv{x.rel: x.advs(run, false)}, fmt.Sprintf("-e%d", run))
+			case "oracle":
+				as := x.advs(run, false)
+				for i := range as {
+					as[i].plats = []string{"Oracle Linux " + x.rel}
+				}
+				w.put(x.feed, 200, "application/xml", ovalDoc("rpm", "Oracle Linux 0", as), "etag", et)
+			default:
+				continue
+			}
+			hy.epoch[x.feed] = run
+		}
+	}
 	if changed["osv"] {
 		for _, x := range hy.rels {
 			if x.eco != "pypi" {
@@ -351,6 +379,10 @@ func (hy *history) pickFaults(run int) map[string]fault {
 			wgt = 3
 		case k == "alpine.test/last-update", strings.HasPrefix(k, "osv.test/"):
 			wgt = 3
+		case strings.HasPrefix(k, "linux.oracle.test/") && !strings.Contains(k, "elsa-2024"):
+			wgt = 0 // the other years' (empty) documents
+		case strings.HasPrefix(k, "aws.test/"), strings.HasPrefix(k, "ftp.suse.test/"), strings.HasPrefix(k, "packages.vmware.com/"), strings.Contains(k, "mirror.list"), strings.Contains(k, "elsa-2024"):
+			wgt = 2
 		}
 		for ; wgt > 0; wgt-- {
 			pool = append(pool, k)
@@ -368,7 +400,7 @@ func (hy *history) run(ctx context.Context, run int) {
 	rn := h.rnd
 	hy.mirrors(run)
 	changed := map[string]bool{}
-	for _, e := range []string{"alpine", "debian", "ubuntu", "osv"} {
+	for _, e := range []string{"alpine", "debian", "ubuntu", "osv", "rpm"} {
 		changed[e] = run == 1 || rn.Chance(3, 4)
 	}
 	if len(hy.forced[run]) > 0 {
@@ -643,6 +675,56 @@ func (h *harness) sectionHistory() {
 				hy.rels = append(hy.rels, x)
 			}
 		}
+		// the rpm-based distributions: one release each, image = fixture file + rpm database
+		{
+			rpmP := h.genPair("rpm")
+			byVar := func(d string) map[string]string {
+				m := map[string]string{}
+				for _, v := range h.fx.Vars[d] {
+					m[v.Name] = v.Content
+				}
+				return m
+			}
+			mkImg := func(path, content string, flavour string) []map[string][]byte {
+				dbPath, db, err := rpmImageDB(rpmP, flavour, "")
+				if err != nil {
+					return nil
+				}
+				return []map[string][]byte{{path: []byte(content)}, {dbPath: db}}
+			}
+			for k, d := range []string{"aws", "oracle", "photon"} {
+				exp := h.fx.Expected[d]
+				if len(exp) == 0 {
+					continue
+				}
+				e := exp[(hi+k)%len(exp)]
+				path := "etc/os-release"
+				if strings.Contains(e[1], "Issue") {
+					path = "etc/issue"
+				}
+				x := &histRelease{eco: d, rel: e[0], listedFrom: 1, pair: rpmP}
+				switch d {
+				case "aws":
+					x.updater, x.feed = "aws-"+e[0]+"-updater", "aws.test/"+e[0]+"/repodata/updateinfo.xml.gz"
+				case "oracle":
+					x.updater, x.feed = "oracle-2024-updater", "linux.oracle.test/security/oval/com.oracle.elsa-2024.xml"
+				case "photon":
+					x.updater, x.feed = "photon-updater-"+e[0], "packages.vmware.com/photon/photon_oval_definitions/com.vmware.phsa-"+e[0]+".xml"
+				}
+				if layers := mkImg(path, byVar(d)[e[1]], []string{"sqlite", "ndb"}[(hi+k)%2]); layers != nil {
+					if x.ir = index(d+" "+e[0], layers...); x.ir != nil {
+						hy.rels = append(hy.rels, x)
+					}
+				}
+			}
+			sx := &histRelease{eco: "suse", rel: "15", name: "suse.linux.enterprise.server.15.xml.gz", updater: "suse-updater-suse.linux.enterprise.server.15",
+				feed: "ftp.suse.test/pub/projects/security/oval/suse.linux.enterprise.server.15.xml.gz", listedFrom: 1, pair: rpmP}
+			if layers := mkImg("etc/os-release", byVar("suse")["enterpriseServer15OSRelease"], "ndb"); layers != nil {
+				if sx.ir = index("suse 15", layers...); sx.ir != nil {
+					hy.rels = append(hy.rels, sx)
+				}
+			}
+		}
 		// directed part of the first histories: one release's Release file
 		// fails in run 2 (after a clean first run), the late release's in the
 		// run it appears in
@@ -657,10 +739,16 @@ func (h *harness) sectionHistory() {
 			hy.forced[3] = []string{debs[len(debs)-1].relKey}
 		}
 		cfgs := map[string]driver.ConfigUnmarshaler{}
-		sets := []string{"alpine", "debian", "ubuntu", "osv"}
+		sets := []string{"alpine", "debian", "ubuntu", "osv", "photon", "suse", "aws", "oracle"}
 		for _, n := range sets {
 			cfgs[n] = worldConfig
 		}
+		// oracle: one (empty) document per year, the advisories in 2024's
+		for n, c := range hy.w.oracleYearsWorld(nil, 2007, time.Now().Year()) {
+			cfgs[n] = c
+		}
+		// photon: the releases without an image still have a (empty) document
+		hy.w.photonWorld(map[string][]adv{"photon1": nil, "photon2": nil, "photon3": nil})
 		lv, err := libvuln.New(ctx, &libvuln.Options{
 			Store: hy.st, Locker: updates.NewLocalLockSource(), Client: hy.w.client(),
 			UpdaterSets: sets, UpdaterConfigs: cfgs, DisableBackgroundUpdates: true, UpdateRetention: 2,
